@@ -6,7 +6,9 @@ C20 - model of plugin installation: `CLIManager.Install` / `Uninstall` / `List` 
 
 Two kinds of cases go through the same `Input` / `Obs`:
 * `kind = "seq"`    - a sequence of install / uninstall operations on an initially empty
-                      plugin root; observed after every operation;
+                      plugin root, interleaved with what the world does behind the manager's
+                      back (`plant` a directory, `rmexe` delete only the binary); observed
+                      after every operation;
 * `kind = "semver"` - one pair of version strings: validity and comparison (validates the
                       Lean semver model against the real `internal/semver`).
 -/
@@ -155,7 +157,8 @@ structure Script where
 /-- a regular file -/
 structure File where
   name : Text
-  exec : Bool               -- owner-executable bit (0100)
+  exec : Bool               -- owner-executable bit (0100): what `isExecutableFile` tests
+  gox : Bool                -- some group / other execute bit (0011) is set
   cid : Nat                 -- identity of the content
   script : Option Script    -- `none`: not a plugin script (cannot be executed)
   deriving DecidableEq, Repr, FromJson, ToJson
@@ -168,23 +171,28 @@ structure Entry where
   kind : EKind
   name : Text
   exec : Bool
+  gox : Bool
   cid : Nat
   script : Option Script
   nested : List File        -- content of a sub-directory (never looked at by the repaired code)
   deriving Repr, FromJson, ToJson
 
-def Entry.toFile (e : Entry) : File := ⟨e.name, e.exec, e.cid, e.script⟩
+def Entry.toFile (e : Entry) : File := ⟨e.name, e.exec, e.gox, e.cid, e.script⟩
 
-inductive OpKind | install | uninstall
+/-- `install` / `uninstall` are calls of the manager; `plant` and `rmexe` are what the world
+does to the plugin root behind the manager's back (an interrupted earlier installation, a
+hand-copied or damaged plugin, a user deleting only the binary) -/
+inductive OpKind | install | uninstall | plant | rmexe
   deriving DecidableEq, Repr, FromJson, ToJson
 
 structure Op where
   kind : OpKind
-  name : Text               -- uninstall: the plugin name
+  name : Text               -- uninstall / plant / rmexe: the plugin (directory) name
   overwrite : Bool          -- install: CLIInstallOptions.Overwrite
   srcIsDir : Bool           -- install: PluginPath is a directory
   srcBase : Text            -- install: base name of PluginPath
-  entries : List Entry      -- directory: its entries (any order); file: `[the file]`; `[]`: no such path
+  entries : List Entry      -- directory: its entries (any order); file: `[the file]`; `[]`: no such path;
+                            -- plant: the regular files the planted directory holds
   deriving Repr, FromJson, ToJson
 
 /-- an installed plugin: a directory of the plugin root and the regular files in it -/
@@ -376,10 +384,22 @@ def uninstall (st : State) (n : Text) : Outcome × State :=
   else if (findBy Plugin.name n st).isSome then (⟨.ok, none, none⟩, delBy Plugin.name n st)
   else (⟨.notExist, none, none⟩, st)
 
+/-- the directory `<root>/<n>` is replaced by one holding exactly the given regular files
+(with or without a `notation-<n>` among them) -/
+def plant (st : State) (n : Text) (es : List Entry) : State :=
+  if !validName n then st
+  else putBy Plugin.name ⟨n, topFiles es⟩ (delBy Plugin.name n st)
+
+/-- only the file `<root>/<n>/notation-<n>` is deleted -/
+def rmexe (st : State) (n : Text) : State :=
+  st.map fun p => if p.name == n then { p with files := delBy File.name (binName n) p.files } else p
+
 def step (st : State) (op : Op) : Outcome × State :=
   match op.kind with
   | .install => install st op
   | .uninstall => uninstall st op.name
+  | .plant => (⟨.ok, none, none⟩, plant st op.name op.entries)
+  | .rmexe => (⟨.ok, none, none⟩, rmexe st op.name)
 
 /-! ## 6. observation -/
 
@@ -387,6 +407,7 @@ structure FileObs where
   name : Text
   cid : Nat
   exec : Bool
+  gox : Bool
   deriving DecidableEq, Repr, FromJson, ToJson
 
 structure PluginObs where
@@ -403,7 +424,7 @@ structure StepObs where
   listed : List Text           -- CLIManager.List after the operation
   deriving DecidableEq, Repr, FromJson, ToJson
 
-def fobs (f : File) : FileObs := ⟨f.name, f.cid, f.exec⟩
+def fobs (f : File) : FileObs := ⟨f.name, f.cid, f.exec, f.gox⟩
 def pobs (p : Plugin) : PluginObs := ⟨p.name, p.files.map fobs, answer p⟩
 def observe (st : State) : List PluginObs := st.map pobs
 
@@ -417,6 +438,7 @@ def runOps : State → List Op → List StepObs
 
 structure Input where
   kind : String
+  noRoot : Bool              -- the plugin root directory does not exist at the start (same model state: empty)
   ops : List Op
   v : Text
   w : Text
@@ -455,6 +477,16 @@ def specNew (op : Op) : Option New := newOf op (specLocate op)
 
 def lookupR (R : List PluginObs) (n : Text) : Option PluginObs := findBy PluginObs.name n R
 
+/-- `CLIManager.Get` finds the plugin: its directory holds a file `notation-<name>` -/
+def hasExe (p : PluginObs) : Bool := p.files.any (fun f => f.name == binName p.name)
+
+/-- the existing plugin as Install sees it: a directory without its executable (left by an
+interrupted installation, or whose binary was deleted) counts as absent -/
+def existingR (R : List PluginObs) (n : Text) : Option PluginObs :=
+  match lookupR R n with
+  | none => none
+  | some p => if hasExe p then some p else none
+
 def newObs (nw : New) : PluginObs := ⟨nw.name, nw.files.map fobs, some nw.version⟩
 
 /-- `vn` is strictly higher than the version the installed plugin reports -/
@@ -488,7 +520,7 @@ def cInstallExact : Triple → Bool
     | some nw =>
       s.root == putBy PluginObs.name (newObs nw) (delBy PluginObs.name nw.name R) &&
       s.new == some nw.version &&
-      s.existing == (lookupR R nw.name).bind (·.version)
+      s.existing == (existingR R nw.name).bind (·.version)
 
 def cReplaceOnlyIf : Triple → Bool
   | (R, op, s) =>
@@ -496,7 +528,7 @@ def cReplaceOnlyIf : Triple → Bool
     match specNew op with
     | none => false
     | some nw =>
-      match lookupR R nw.name with
+      match existingR R nw.name with
       | none => true
       | some p => op.overwrite || higher nw.version p
 
@@ -506,7 +538,7 @@ def cInstallWhenAllowed : Triple → Bool
     match specNew op with
     | none => s.err != .ok
     | some nw =>
-      match lookupR R nw.name with
+      match existingR R nw.name with
       | none => s.err == .ok
       | some p => !(op.overwrite || higher nw.version p) || s.err == .ok
 
@@ -515,21 +547,26 @@ def cRefusalClass : Triple → Bool
     (s.err != .downgrade ||
       (isInstall op && !op.overwrite && match specNew op with
         | none => false
-        | some nw => relTo .lt nw.version (lookupR R nw.name))) &&
+        | some nw => relTo .lt nw.version (existingR R nw.name))) &&
     (s.err != .equalVersion ||
       (isInstall op && !op.overwrite && match specNew op with
         | none => false
-        | some nw => relTo .eq nw.version (lookupR R nw.name)))
+        | some nw => relTo .eq nw.version (existingR R nw.name)))
 
 def cListed : Triple → Bool
   | (_, _, s) => s.listed == s.root.map (·.name)
 
+/-- the operation is the world touching the directory `n` behind the manager's back -/
+def touches (op : Op) (n : Text) : Bool := (op.kind == .plant || op.kind == .rmexe) && op.name == n
+
+/-- never half-replaced: a directory that does not answer after an operation was there,
+exactly like that, before it - unless the operation is the world planting / damaging it -/
 def cAnswers : Triple → Bool
-  | (_, _, s) => s.root.all (·.version.isSome)
+  | (R, op, s) => s.root.all (fun p => p.version.isSome || R.contains p || touches op p.name)
 
 def cUninstall : Triple → Bool
   | (R, op, s) =>
-    isInstall op ||
+    op.kind != .uninstall ||
     if validName op.name && (lookupR R op.name).isSome then
       s.err == .ok && s.root == delBy PluginObs.name op.name R
     else s.err != .ok && (!validName op.name || s.err == .notExist)
@@ -548,7 +585,7 @@ def clauses (i : Input) (o : Obs) : Clauses :=
       ("installs_when_the_rules_allow", ts.all cInstallWhenAllowed),
       ("refusal_class_matches_version_relation", ts.all cRefusalClass),
       ("listed_is_the_root_listing", ts.all cListed),
-      ("every_installed_plugin_answers", ts.all cAnswers),
+      ("no_operation_leaves_a_plugin_that_does_not_answer", ts.all cAnswers),
       ("uninstall_removes_exactly_the_named_plugin", ts.all cUninstall) ]
 
 def Holds (i : Input) (o : Obs) : Bool := (clauses i o).holds
